@@ -27,6 +27,7 @@ type c10Write struct {
 	noSelf  bool       // cannot be issued by the watching connection (e.g. blocking semantics irrelevant)
 	unwatch string     // control rows: "unwatch", "discard", "exec" between WATCH and the final MULTI
 	rewatch bool       // WATCH w is issued a second time after the write: the modification must not be forgotten
+	more    [][]string // further commands of the same issuer right after cmd (remove-and-re-create histories)
 }
 
 var c10Setups = map[string][][]string{
@@ -106,6 +107,29 @@ func c10Table() []c10Write {
 	for _, u := range []string{"unwatch", "discard", "exec"} {
 		t = append(t, c10Write{name: "after-" + u + "/SET", state: "string", setup: c10Setups["string"], cmd: []string{"SET", "w", "changed"}, modify: false, unwatch: u})
 		t = append(t, c10Write{name: "after-" + u + "/LPUSH", state: "list", setup: c10Setups["list"], cmd: []string{"LPUSH", "w", "x"}, modify: false, unwatch: u})
+	}
+	// the key is removed and re-created with the same value (by flush, delete, rename round trip, overwrite): the
+	// value is what it was, the key has still been modified
+	for _, h := range []struct {
+		state string
+		cmds  [][]string
+	}{
+		{"string", [][]string{{"FLUSHDB"}, {"SET", "w", "10"}}},
+		{"string", [][]string{{"FLUSHALL"}, {"SET", "w", "10"}}},
+		{"string", [][]string{{"DEL", "w"}, {"SET", "w", "10"}}},
+		{"string", [][]string{{"SET", "w", "other"}, {"SET", "w", "10"}}},
+		{"string", [][]string{{"RENAME", "w", "tmpname"}, {"RENAME", "tmpname", "w"}}},
+		{"string", [][]string{{"INCR", "w"}, {"DECR", "w"}}},
+		{"list", [][]string{{"FLUSHDB"}, {"RPUSH", "w", "a", "b", "c", "a"}}},
+		{"list", [][]string{{"FLUSHALL"}, {"RPUSH", "w", "a", "b", "c", "a"}}},
+		{"list", [][]string{{"LPUSH", "w", "x"}, {"LPOP", "w"}}},
+		{"hash", [][]string{{"FLUSHDB"}, {"HSET", "w", "f", "v", "n", "5"}}},
+		{"hash", [][]string{{"HSET", "w", "f", "other"}, {"HSET", "w", "f", "v"}}},
+		{"set", [][]string{{"FLUSHALL"}, {"SADD", "w", "a", "b", "c"}}},
+		{"set", [][]string{{"SREM", "w", "a"}, {"SADD", "w", "a"}}},
+		{"missing", [][]string{{"FLUSHDB"}, {"SET", "w", "v"}, {"DEL", "w"}, {"SET", "w", "v"}}},
+	} {
+		t = append(t, c10Write{name: "recreate/" + cmdTag(h.cmds[0]) + "+" + cmdTag(h.cmds[len(h.cmds)-1]), state: h.state, setup: c10Setups[h.state], cmd: h.cmds[0], more: h.cmds[1:], modify: true})
 	}
 	// rotating a one-element list onto itself leaves the value as it is but is a write of the key
 	for _, c := range [][]string{{"LMOVE", "w", "w", "LEFT", "RIGHT"}, {"LMOVE", "w", "w", "RIGHT", "RIGHT"}, {"RPOPLPUSH", "w", "w"}, {"BLMOVE", "w", "w", "LEFT", "RIGHT", "0.01"}, {"BRPOPLPUSH", "w", "w", "0.01"}} {
@@ -213,8 +237,14 @@ func c10Run(r *verdict.Run, e *emu, cs c10Case) {
 		}
 		if cs.issuer == "self" {
 			wreply, _ = step(A, sa, "A", cs.w.cmd...)
+			for _, m := range cs.w.more {
+				step(A, sa, "A", m...)
+			}
 		} else {
 			wreply, _ = step(B, sb, "B", cs.w.cmd...)
+			for _, m := range cs.w.more {
+				step(B, sb, "B", m...)
+			}
 		}
 	}
 	if cs.position == "before-multi" {
